@@ -47,9 +47,9 @@ STMTS = [
     ("r::a+p", ["r"]),
     ("a::p", ["a"]),
     ("d:::{[1 2]}", ["d"]),
-    ("d,p,p", []),               # documented in-place update of the dictionary (visible through aliases)
+    ("d,7,p", []),               # documented in-place update of the dictionary (visible through aliases); concrete key: keys are hashed
     ("e::d", ["e"]),
-    ("r::d?p", ["r"]),
+    ("r::d?7", ["r"]),
     ("a::[1 2 3]", ["a"]),
     ("b::a:=p,2", ["b"]),
     ("c::1_a", ["c"]),
